@@ -563,11 +563,67 @@ func (Engine) Execute(planJSON json.RawMessage, scratch string) (res sim.RunResu
 				res.Count("fault_truncation_series", 1)
 			}
 		case "invalidate":
+			// a second caller stores one of the streams again, should the
+			// invalidation let go of the cache's lock before it is done (it does
+			// not on the shipped code): whichever of the two is taken to come
+			// first, what the running process answers afterwards must be what a
+			// restart finds in the file
+			var sid uint64
+			var sdata []index.Data
+			var smc []mchunk
+			sfired := false
+			var serr error
+			if !p.Crash && len(op.IDs) > 0 {
+				sid = op.IDs[oi%len(op.IDs)]
+				if _, cached := model[sid]; cached {
+					ob := []byte(fmt.Sprintf("stored again by a second caller %d/%d ", oi, sid))
+					sdata = []index.Data{{Direction: index.DirectionClientToServer, Content: ob, Time: base.Add(time.Second)}}
+					smc = []mchunk{{0, ob, base.Add(time.Second), ""}}
+					simrt.SetUnlockHook(func(site string) {
+						if sfired {
+							return
+						}
+						sfired = true
+						res.Count("fault_second_caller_at_lock_release", 1)
+						serr = c.SetData(sid, base, sdata)
+					})
+				}
+			}
 			c.Invalidate(op.IDs)
+			simrt.SetUnlockHook(nil)
 			for _, id := range op.IDs {
 				delete(model, id)
 			}
 			res.Count("op_invalidate", 1)
+			if sfired {
+				if serr != nil {
+					viol(fmt.Sprintf("second-caller-error|%s: store by the second caller failed: %v", what, serr))
+					return
+				}
+				// either order is fine; take what the process says now
+				if c.Contains(sid) {
+					model[sid] = smc
+				}
+				if msg := compare(c, model, what+" with a second caller storing stream "+fmt.Sprint(sid)+" again meanwhile"); msg != "" {
+					viol("second-caller-" + msg)
+					return
+				}
+				if err := c.Close(); err != nil {
+					viol(fmt.Sprintf("close-error|%s: %v", what, err))
+					return
+				}
+				c = nil
+				nc, err := converters.VerifNewCacheFile(path)
+				if err != nil {
+					viol(fmt.Sprintf("reopen-error|%s: %v", what, err))
+					return
+				}
+				c = nc
+				if msg := compare(c, model, what+" with a second caller storing stream "+fmt.Sprint(sid)+" again meanwhile, then reopened"); msg != "" {
+					viol("second-caller-reopen-" + msg)
+					return
+				}
+			}
 		case "reset":
 			if err := c.Reset(); err != nil {
 				viol(fmt.Sprintf("reset-error|%s: %v", what, err))
